@@ -2,7 +2,7 @@
 Driver of the C04 section of the oracle.
 
   @ C04 slice <cmp> v…       Slice[int] from FromSlice(v…)      ops: push pop peek len rm fix set setfix popall popalln seq range rangeall popallbody pull next stop
-  @ C04 heap <cmp>           two Heap[int] (A, B) from New(0,·) ops: init initc push pushe pop peek len rm fix setv setfix popall popalln seq range rangeall copyrm copyfix popallbody pull next stop
+  @ C04 heap <cmp>           two Heap[int] (A, B) from New(0,·) ops: init initc push pushe pop peek len rm fix setv setfix setrm popall popalln seq range rangeall copyrm copyfix popallbody pull next stop
   @ C04 slicen <cmp> <cap>   Slice[int] from NewSlice(cap,·)     ops: as slice
   @ C04 generic <cmp> v…     recording container holding v…     ops: init push pop rm fix set
 
@@ -198,6 +198,9 @@ def parseHOp (cmp : Int → Int → Bool) (m : HMem) (ts : List String) : Option
   | ["setfix", h, e, v] => do
     let h ← parseHeap h; let e ← parseElem m e; let v ← v.toInt?
     pure (.setFix h e v)
+  | ["setrm", h, e, v] => do
+    let h ← parseHeap h; let e ← parseElem m e; let v ← v.toInt?
+    pure (.setRemove h e v)
   | ["popall", h] => do pure (.popAll (← parseHeap h))
   | ["popalln", h, k] => do
     let h ← parseHeap h; let k ← k.toNat?
